@@ -63,6 +63,7 @@ MUTANTS = {
         "complete_only_when_new": [("_handlers/record_manager.py", "        if updates:\n            self.async_updates_complete(new)", "        if updates and new:\n            self.async_updates_complete(new)")],
     },
     "C10": {
+        "d73_reverted": [("_services/browser.py", "                if self.zc.done or self.done:\n", "                if True:\n")],
         "d34_reverted": [("_services/browser.py", "        self._next_scheduled_for_alias[(scheduled_query.name.lower(), scheduled_query.alias)] = scheduled_query", "        self._next_scheduled_for_alias[('', scheduled_query.alias)] = scheduled_query"),
                          ("_services/browser.py", "        scheduled = self._next_scheduled_for_alias.pop((pointer.key, pointer.alias_key), None)", "        scheduled = self._next_scheduled_for_alias.pop(('', pointer.alias_key), None)"),
                          ("_services/browser.py", "        current = self._next_scheduled_for_alias.get((pointer.key, pointer.alias_key))", "        current = self._next_scheduled_for_alias.get(('', pointer.alias_key))"),
@@ -96,13 +97,13 @@ MUTANTS = {
         "d1_reverted": [("_services/registry.py", "            if not self.types[type_key]:\n                del self.types[type_key]\n", "")],
         "update_keeps_old": [("_services/registry.py", "        self._remove([info])\n        self._add(info)", "        if info.key not in self._services:\n            self._add(info)")],
         "txt_answers_srv_too": [("_handlers/query_handler.py", "                if type_ in (_TYPE_TXT, _TYPE_ANY):", "                if type_ in (_TYPE_TXT, _TYPE_ANY, _TYPE_SRV):")],
-        "nsec_never": [("_handlers/query_handler.py", "            elif type_ in missing_types:", "            elif False:")],
+        "nsec_never": [("_handlers/query_handler.py", "            elif type_ in missing_types and type_ not in host_types:", "            elif False:")],
         "ptr_ttl_host": [("_services/info.py", "            override_ttl if override_ttl is not None else self.other_ttl,\n            self._name,\n            0.0,", "            override_ttl if override_ttl is not None else self.host_ttl,\n            self._name,\n            0.0,")],
     },
     "C15": {
         "indexerror_not_contained": [("_protocol/incoming.py", "DECODE_EXCEPTIONS = (IndexError, struct.error, IncomingDecodeError)", "DECODE_EXCEPTIONS = (struct.error, IncomingDecodeError)")],
         "size_guard_removed": [("_listener.py", "        if data_len > _MAX_MSG_ABSOLUTE:", "        if False and data_len > _MAX_MSG_ABSOLUTE:")],
-        "deferred_not_popped": [("_listener.py", "        packets = self._deferred.pop(addr, [])", "        packets = list(self._deferred.get(addr, []))")],
+        "deferred_not_popped": [("_listener.py", "        packets = self._deferred.pop(key, [])", "        packets = list(self._deferred.get(key, []))")],
         "d5_reverted": [("_protocol/incoming.py", "                if len(seen_pointers) >= MAX_DNS_LABELS:", "                if False:")],
         "d6_reverted": [("_protocol/incoming.py", "                if '\\ufffd' in label and len(label.encode('utf-8')) > MAX_DNS_LABEL_LENGTH:", "                if False:")],
         "invalid_still_dispatched": [("_listener.py", "            return\n\n        if not msg.is_query():", "            pass\n\n        if not msg.is_query():")],
@@ -147,7 +148,6 @@ MUTANTS = {
     },
     "C11": {
         "d21_reverted": [("_listener.py", "            and (addrs[1] == _MDNS_PORT or addrs[:2] == self.last_message.source)\n", "")],
-        "d31_reverted": [("_listener.py", "        if msg is not None and port != _MDNS_PORT:", "        if False:")],
         "recent_is_half": [("_dns.py", "_RECENT_TIME_MS = 250", "_RECENT_TIME_MS = 500")],
         "unicast_via_first_sender": [("_handlers/query_handler.py", "            self.zc.async_send(out, addr, port, v6_flow_scope, transport)", "            self.zc.async_send(out, addr, port, v6_flow_scope, self.zc.engine.senders[0])")],
         "unicast_built_as_multicast": [("_handlers/answers.py", "    out = DNSOutgoing(_FLAGS_QR_RESPONSE_AA, False, id_)", "    out = DNSOutgoing(_FLAGS_QR_RESPONSE_AA, True, id_)")],
@@ -161,11 +161,13 @@ MUTANTS = {
         # multicast id forced to 0 in packets(): equivalent here, every multicast DNSOutgoing the stack builds has id 0 anyway
     },
     "C12": {
-        "d25_reverted": [("_handlers/query_handler.py", "        query_res = _QueryResponse(self.cache, questions, is_probe, msg.now)", "        query_res = _QueryResponse(self.cache, msgs[0]._questions, is_probe, msg.now)")],
+        "d25_reverted": [("_handlers/query_handler.py", "        query_res = _QueryResponse(self.cache, questions, is_probe, msg.now if answered_at is None else answered_at)", "        query_res = _QueryResponse(self.cache, msgs[0]._questions, is_probe, msg.now if answered_at is None else answered_at)")],
+        "d58_reverted": [("_listener.py", "        key = addr if port == _MDNS_PORT else (addr, port)", "        key = addr"), ("_listener.py", "        key = addr if port == _MDNS_PORT else (addr, port)", "        key = addr")],
+        "d69_reverted": [("_handlers/query_handler.py", "msg.now if answered_at is None else answered_at)", "msg.now)")],
         "aggregation_600": [("_core.py", "_AGGREGATION_DELAY = 500  # ms", "_AGGREGATION_DELAY = 700  # ms")],
         "protected_extra_delay_900": [("_core.py", "self.out_delay_queue = MulticastOutgoingQueue(self, _ONE_SECOND, _PROTECTED_AGGREGATION_DELAY)", "self.out_delay_queue = MulticastOutgoingQueue(self, 900, _PROTECTED_AGGREGATION_DELAY)")],
         "last_second_le": [("_handlers/query_handler.py", "self._now - maybe_entry.created < _ONE_SECOND)", "self._now - maybe_entry.created < 500)")],
-        "tc_hold_not_restarted": [("_listener.py", "        self._cancel_any_timers_for_addr(addr)\n        self._timers[addr] = loop.call_at(", "        if addr in self._timers:\n            return\n        self._timers[addr] = loop.call_at(")],
+        "tc_hold_not_restarted": [("_listener.py", "        self._cancel_any_timers_for_addr(key)\n        self._timers[key] = loop.call_at(", "        if key in self._timers:\n            return\n        self._timers[key] = loop.call_at(")],
         "tc_delay_short": [("_listener.py", "_TC_DELAY_RANDOM_INTERVAL = (400, 500)", "_TC_DELAY_RANDOM_INTERVAL = (100, 200)")],
         "jitter_too_small": [("_handlers/answers.py", "MULTICAST_DELAY_RANDOM_INTERVAL = (20, 120)", "MULTICAST_DELAY_RANDOM_INTERVAL = (0, 10)")],
         "single_ptr_immediate": [("_handlers/query_handler.py", "_RESPOND_IMMEDIATE_TYPES = {_TYPE_NSEC, _TYPE_SRV, *_ADDRESS_RECORD_TYPES}", "_RESPOND_IMMEDIATE_TYPES = {_TYPE_NSEC, _TYPE_SRV, _TYPE_PTR, *_ADDRESS_RECORD_TYPES}")],
@@ -209,11 +211,13 @@ MUTANTS = {
         # not listed (duplicate_question_interval_5s): equivalent under the single-loss fault model: a 20 s duplicate-question window withholds later start-up queries, which needs two losses to matter (the first QU query is never suppressed)
         "browser_one_startup_query": [("_services/browser.py", "STARTUP_QUERIES = 4", "STARTUP_QUERIES = 1")],
         "d15_reverted": [("_core.py", "            if ttl is None and self.registry.async_get_info_name(info.key) is not info:", "            if False:")],
-        "d17_reverted": [("_core.py", "        if replaced is not None and replaced is not info:", "        if False:")],
-        "d16_reverted": [("_listener.py", "            if protocol is not self:\n                protocol.data = None", "            if False:\n                protocol.data = None")],
+        "d17_reverted": [("_core.py", "        if replaced is not None:\n            # Answers built from the replaced ServiceInfo", "        if False:\n            # Answers built from the replaced ServiceInfo")],
+        "d16_reverted": [("_listener.py", "                    protocol.undone = True", "                    protocol.undone = False")],
+        "d74_reverted": [("const.py", "_DUPLICATE_PACKET_BACK_TO_BACK_INTERVAL = 20  # ms", "_DUPLICATE_PACKET_BACK_TO_BACK_INTERVAL = 50  # ms")],
+        "d75_reverted": [("_core.py", "record for record in previous_addresses if record not in current and record not in shared", "record for record in previous_addresses if record not in current and record not in shared and replaced is not info")],
         "d3_reverted": [("_core.py", "        self.out_delay_queue.async_remove_records(withdrawn)\n", ""), ("_core.py", "        self.out_queue.async_remove_records(withdrawn)\n", "")],
         "goodbye_not_processed_by_browser": [("_services/browser.py", "                    elif pointer.is_expired(now):", "                    elif False:")],
         "responder_ignores_qm_ptr": [("_handlers/query_handler.py", "        if type_ in (_TYPE_PTR, _TYPE_ANY):\n            services = self.registry.async_get_infos_type(question_lower_name)", "        if type_ in (_TYPE_ANY,):\n            services = self.registry.async_get_infos_type(question_lower_name)")],
-        "update_not_announced": [("_core.py", "            self.out_delay_queue.async_remove_records(outdated)\n        return asyncio.ensure_future(self._async_broadcast_service(info, _REGISTER_TIME, None))", "            self.out_delay_queue.async_remove_records(outdated)\n        return asyncio.ensure_future(asyncio.sleep(0))")],
+        "update_not_announced": [("_core.py", "                goodbye.add_done_callback(self._goodbye_tasks.discard)\n        return asyncio.ensure_future(self._async_broadcast_service(info, _REGISTER_TIME, None))", "                goodbye.add_done_callback(self._goodbye_tasks.discard)\n        return asyncio.ensure_future(asyncio.sleep(0))")],
     },
 }
